@@ -49,13 +49,17 @@ fn serr(e: &s2n_quic::stream::Error) -> serde_json::Value {
 }
 
 /// writes `total` position-determined bytes in chunks, optionally resets, finishes and waits for the close
-async fn writer(sh: Shared, ep: &'static str, mut s: SendStream, total: u64, chunk: usize, finish: bool, reset_at: Option<u64>) {
+#[allow(clippy::too_many_arguments)]
+async fn writer(sh: Shared, ep: &'static str, mut s: SendStream, total: u64, chunk: usize, finish: bool, reset_at: Option<u64>, reset_delay_us: u64, reset_after_finish_us: u64) {
     let id = s.id();
     let mut off = 0u64;
     let chunk = chunk.max(1);
     loop {
         if let Some(r) = reset_at {
             if off >= r {
+                if reset_delay_us > 0 {
+                    io::time::delay(Duration::from_micros(reset_delay_us)).await;
+                }
                 let res = s.reset(7u32.into());
                 emit(json!({"ev": "app_reset", "ep": ep, "id": id, "off": off, "ok": res.is_ok()}));
                 return;
@@ -90,6 +94,12 @@ async fn writer(sh: Shared, ep: &'static str, mut s: SendStream, total: u64, chu
                 return;
             }
         }
+        if reset_after_finish_us > 0 {
+            io::time::delay(Duration::from_micros(reset_after_finish_us)).await;
+            let res = s.reset(8u32.into());
+            emit(json!({"ev": "app_reset", "ep": ep, "id": id, "off": off, "ok": res.is_ok(), "after_finish": true}));
+            return;
+        }
         // wait until the peer has acknowledged everything
         match with_deadline(&sh, "close", ep, id as i64, s.close()).await {
             Some(Ok(())) => emit(json!({"ev": "app_send_done", "ep": ep, "id": id, "total": off})),
@@ -105,9 +115,12 @@ async fn writer(sh: Shared, ep: &'static str, mut s: SendStream, total: u64, chu
     }
 }
 
-async fn reader(sh: Shared, ep: &'static str, mut r: ReceiveStream, delay_us: u64, stop_at: Option<u64>) {
+async fn reader(sh: Shared, ep: &'static str, mut r: ReceiveStream, delay_us: u64, stop_at: Option<u64>, start_delay_us: u64) {
     let id = r.id();
     let mut off = 0u64;
+    if start_delay_us > 0 {
+        io::time::delay(Duration::from_micros(start_delay_us)).await;
+    }
     loop {
         if let Some(sa) = stop_at {
             if off >= sa {
@@ -182,10 +195,10 @@ pub fn drive(sh: Shared, ep: &'static str, conn: Connection) {
                         match stream {
                             PeerStream::Bidirectional(s) => {
                                 let (r, w) = s.split();
-                                role(&sh, reader(sh.clone(), ep, r, sp.read_delay_us, sp.stop_at));
-                                role(&sh, writer(sh.clone(), ep, w, sp.reply, sp.reply_chunk, true, None));
+                                role(&sh, reader(sh.clone(), ep, r, sp.read_delay_us, sp.stop_at, sp.read_start_delay_us));
+                                role(&sh, writer(sh.clone(), ep, w, sp.reply, sp.reply_chunk, true, None, 0, 0));
                             }
-                            PeerStream::Receive(r) => role(&sh, reader(sh.clone(), ep, r, sp.read_delay_us, sp.stop_at)),
+                            PeerStream::Receive(r) => role(&sh, reader(sh.clone(), ep, r, sp.read_delay_us, sp.stop_at, sp.read_start_delay_us)),
                         }
                     }
                     Ok(None) => {
@@ -217,8 +230,8 @@ pub fn drive(sh: Shared, ep: &'static str, conn: Connection) {
                     Some(Ok(s)) => {
                         emit(json!({"ev": "app_open", "ep": ep, "id": s.id(), "bidi": true}));
                         let (r, w) = s.split();
-                        role(&sh, writer(sh.clone(), ep, w, sp.send, sp.chunk, sp.finish, sp.reset_at));
-                        role(&sh, reader(sh.clone(), ep, r, sp.read_delay_us, None));
+                        role(&sh, writer(sh.clone(), ep, w, sp.send, sp.chunk, sp.finish, sp.reset_at, sp.reset_delay_us, sp.reset_after_finish_us));
+                        role(&sh, reader(sh.clone(), ep, r, sp.read_delay_us, None, 0));
                     }
                     Some(Err(e)) => {
                         emit(json!({"ev": "app_open_err", "ep": ep, "err": crate::rec::error_json(&e)}));
@@ -231,7 +244,7 @@ pub fn drive(sh: Shared, ep: &'static str, conn: Connection) {
                 match with_deadline(&sh, "open", ep, -1, h2.open_send_stream()).await {
                     Some(Ok(w)) => {
                         emit(json!({"ev": "app_open", "ep": ep, "id": w.id(), "bidi": false}));
-                        role(&sh, writer(sh.clone(), ep, w, sp.send, sp.chunk, sp.finish, sp.reset_at));
+                        role(&sh, writer(sh.clone(), ep, w, sp.send, sp.chunk, sp.finish, sp.reset_at, sp.reset_delay_us, sp.reset_after_finish_us));
                     }
                     Some(Err(e)) => {
                         emit(json!({"ev": "app_open_err", "ep": ep, "err": crate::rec::error_json(&e)}));
